@@ -51,6 +51,7 @@ func natTok(s string) (int, bool) {
 var (
 	statMu    sync.Mutex
 	preShapes = map[string]int{}
+	startHist = map[string]int{}
 	nodeRuns  int
 	failHits  int
 )
@@ -117,7 +118,13 @@ func execCase(c core.Case) []string {
 			}
 			mid := a["mid"] == "1"
 			if f[0] == "start" {
-				out = append(out, getP().start(k, mid))
+				l := getP().start(k, mid)
+				if ff := strings.Fields(l); len(ff) > 3 {
+					statMu.Lock()
+					startHist[strings.Join(ff[1:4], ",")]++
+					statMu.Unlock()
+				}
+				out = append(out, l)
 			} else {
 				out = append(out, getP().commit(k, mid))
 			}
@@ -705,6 +712,14 @@ func gen(r *rand.Rand, tier string, emit func(core.Case)) {
 	}
 }
 
+func copyHist(h map[string]int) map[string]int {
+	o := map[string]int{}
+	for k, v := range h {
+		o[k] = v
+	}
+	return o
+}
+
 func nonTrivial(c core.Case, out []string) bool {
 	crashed, recovered := false, false
 	for i, o := range out {
@@ -763,6 +778,7 @@ func main() {
 				"node_child_runs":              nodeRuns,
 				"node_fail_points_hit":         failHits,
 				"node_crash_state_shapes_seen": shapes,
+				"pipe_start_outcomes":          copyHist(startHist),
 			}
 		},
 	})
